@@ -29,6 +29,11 @@ class ExprDynamicModel(ExprModel):
             self.cached_node = self.cached_expr.build(btor)
         return self.cached_node
         
+    def val(self):
+        # The value of the expression it stands for (e.g. the sum
+        # of a list without random elements)
+        return self.expr().val()
+        
     def build_expr(self):
         raise Exception("Class " + str(type(self)) + " does not implement build_expr")
         
